@@ -193,9 +193,86 @@ def run_plan(plan):
     return res
 
 
+BURSTS = [
+    # (pre-steps, burst, op that only ONE command of the burst uses, index of that command, replies without a fault)
+    ([["cmd", "CWD /dir"]], ["DELE /f.bin", "CDUP", "PWD", "XYZZY"], "unlink", 0, ["250", "250", "257", "502"]),
+    ([], ["PWD", "MKD /pp", "SYST", "PWD"], "mkdir", 1, ["257", "257", "215", "257"]),
+    ([["cmd", "MKD /dir2"]], ["XYZZY", "PWD", "RMD /dir2", "TYPE I"], "rmdir", 2, ["502", "257", "250", "200"]),
+    ([], ["RNFR /f.bin", "RNTO /g.bin", "PWD", "MLST /dir"], "rename", 1, ["350", "250", "257", "250"]),
+    ([], ["TYPE I", "MLST /f.bin", "PWD", "XYZZY", "SYST"], "stat", 1, ["200", "250", "257", "502", "215"]),
+    ([], ["MKD /q1", "PWD"], "mkdir", 0, ["257", "257"]),
+]
+
+
+async def execute_burst(net, hyg, plan):
+    """a back-end failure in one command of a burst written in one piece: *that* command - by position - is answered 451 and
+    every other command of the burst gets the reply it gets in the fault-free run"""
+    pre, lines, op, idx, _expect = BURSTS[plan["burst"]]
+    w = W.World(net, tree=corpus_tree([""]), users=corpus_users, backend=plan.get("backend", "memory"))
+    await w.start()
+    try:
+        if plan.get("fault"):
+            mk = EXCS[plan.get("exc", "eio")]
+            w.ctl.fail = lambda op_, path, n, sess=None: mk() if op_ == op else None
+        if plan.get("delay"):
+            w.ctl.delay = lambda op_, path, n: plan["delay"] if (op_ == op or plan.get("delay_all")) else 0
+        s = Session(net, 2121, name="burst")
+        await s.run([["connect"], ["login"]] + pre + [["pipeline", lines], ["cmd", "PWD"], ["quit"]])
+        codes = s.outcomes[2 + len(pre)] if len(s.outcomes) > 2 + len(pre) else []
+        tail = s.outcomes[3 + len(pre):]
+        s.peer.cut("fin")
+        await net.quiesce(1.0)
+        leaks = w.leaks()
+        await w.stop()
+        return {"codes": codes, "tail": tail, "leaks": leaks}
+    finally:
+        w.cleanup()
+
+
+def run_burst(plan):
+    rearm()
+    async def main(net, hyg):
+        return await execute_burst(net, hyg, plan)
+    res, info = W.run(main, seed=plan.get("seed", 0), net_kwargs=dict(mss=plan.get("mss", 1460), latency=0.001))
+    if res is None:
+        return W.failed(info)
+    res["loop_errors"] = info["hygiene"].serious_loop_errors()
+    return res
+
+
 def run_case(case):
     out = {"violations": [], "monitors": {}, "sigs": [], "stats": {}}
     base = dict(case["plan"])
+    if case["kind"] == "burst":
+        pre, lines, op, idx, expect = BURSTS[base["burst"]]
+        good = run_burst(dict(base, fault=False))
+        bad = run_burst(dict(base, fault=True))
+        for r in (good, bad):
+            if r.get("inconclusive"):
+                return r
+            if r.get("violations"):      # deadlock of the simulation = hang
+                for v in r["violations"]:
+                    v["replay_case"] = case
+                return {"violations": r["violations"], "monitors": {}, "sigs": []}
+        out["monitors"] = {"burst_position": 1, "fault_fired": 1, "reply_451": 1, "probe": 1}
+        want = list(expect)
+        want[idx] = "451"
+        where = f"burst {lines} with every {op} failing ({base.get('exc', 'eio')}, delay {base.get('delay', 0)})"
+        if bad["codes"] != want:
+            kind = "reply-order" if sorted(bad["codes"]) == sorted(want) else "wrong-reply"
+            out["violations"].append({"key": f"burst-{kind}:{op}",
+                                      "msg": f"{where}: replies {bad['codes']}, expected {want} (the failing command is number {idx}; "
+                                             f"fault-free replies {good['codes']})", "replay_case": case})
+        if bad["tail"] != good["tail"]:
+            out["violations"].append({"key": f"probe-failed:burst/{op}", "msg": f"{where}: afterwards {bad['tail']} instead of {good['tail']}",
+                                      "replay_case": case})
+        for leak in bad["leaks"]:
+            out["violations"].append({"key": f"leak-after-fault:burst/{op}", "msg": f"{where}: {leak}", "replay_case": case})
+        if bad["loop_errors"]:
+            out["violations"].append({"key": f"exception-reached-loop:burst/{op}", "msg": str(bad["loop_errors"][:2]), "replay_case": case})
+        out["sigs"].append(sig_of(["burst", base, bad["codes"]]))
+        out["sample"] = {"burst": lines, "failing_op": op, "replies_with_fault": bad["codes"], "replies_fault_free": good["codes"]}
+        return out
 
     def merge(res, plan, label):
         if res.get("inconclusive"):
@@ -271,6 +348,15 @@ def gen_cases(tier, seed):
         pairs += [(rng.choice(names), rng.choice(names)) for _ in range(10)]
     for a, b in pairs:
         cases.append({"kind": "enum_k", "plan": {"script": a, "bystander": b, "exc": "eio", "seed": seed}})
+    # bursts: the failing command is known by position
+    for b in range(len(BURSTS)):
+        for delay in (0, 0.01):
+            for backend in (("memory",) if tier == "quick" else ("memory", "pathio")):
+                for exc in (("eio",) if tier == "quick" else ("eio", "timeout", "fault")):
+                    cases.append({"kind": "burst", "plan": {"burst": b, "delay": delay, "exc": exc, "backend": backend, "seed": seed}})
+                    if delay and tier == "thorough":
+                        cases.append({"kind": "burst", "plan": {"burst": b, "delay": delay, "delay_all": True, "exc": exc, "backend": backend,
+                                                                "seed": seed, "mss": 7}})
     if tier == "thorough":
         for name in names:
             cases.append({"kind": "enum_k", "plan": {"script": name, "exc": "eio", "seed": seed, "mss": 64,
